@@ -438,8 +438,9 @@ Theorem C05_source_detect_keyboard_walk_is_model : forall isalpha isdigit lower_
   detect_keyboard_walk isalpha isdigit lower_c py_kbs kb_false_positive_words 4 fuel pw.
 Proof. exact py_detect_keyboard_walk_eq. Qed.
 (* the layouts read off the dict literals of the source are the extracted rows *)
-Theorem C05_side_translated_layouts : py_kbs = c_kbs /\ c_min_run = 4 /\ NoDup (map b_name py_keyboards).
-Proof. exact (conj side_py_kbs (conj side_min_run_4 py_keyboards_names_differ)). Qed.
+Theorem C05_side_translated_layouts :
+  py_kbs = c_kbs /\ c_min_run = 4 /\ NoDup (map b_name py_keyboards) /\ Forall board_ok py_keyboards.
+Proof. exact (conj side_py_kbs (conj side_min_run_4 (conj py_keyboards_names_differ py_keyboards_ok))). Qed.
 (* the default values of the source: detect_keyboard_walk(password) runs with min_keyboard_run = 4,
    train(password) with set_threshold = False *)
 Theorem C05_side_translated_defaults :
